@@ -211,14 +211,15 @@ def f_many_waiters(rng):
         src = """
 (define m (make-mutex)) (define cv (make-condition-variable)) (define go #f) (define woke 0)
 (define ws (map (lambda (i) (thread-start! (make-thread (lambda ()
+   %s
    (mutex-lock! m)
-   (let wait () (if (not go) (begin (mutex-unlock! m cv) (mutex-lock! m) (wait))))
-   (set! woke (+ woke 1)) (mutex-unlock! m) i)))) '(%s)))
-(thread-yield!)
+   (let ((ok (let wait ((ok #t)) (if (not go) (let ((r (mutex-unlock! m cv%s))) (mutex-lock! m) (wait (and ok r))) ok))))
+     (set! woke (+ woke 1)) (mutex-unlock! m) (if ok i (list i 'woken-but-reported-as-timeout))))))) '(%s)))
+(thread-yield!) %s
 %s
 (mutex-lock! m) (set! go #t) (condition-variable-broadcast! cv) (mutex-unlock! m)
 (write (map thread-join! ws)) (write woke)
-""" % (ids, pre)
+""" % (rng.choice(HISTORY), rng.choice(["", " 50", " 50"]), ids, rng.choice(["", "(thread-sleep! 0.2)", "(thread-sleep! 0.2)"]), pre)
         exp = "(" + ids + ")%d" % n
     return "many-waiters-" + scen, src, exp, n + 2
 
@@ -253,10 +254,19 @@ def f_locals(rng):
     return "locals", src, "#t0%d" % t, t + 1
 
 
+# what a thread may have been through BEFORE the wait under test: completed timed waits of every kind (their expiry must leave nothing behind
+# that changes the outcome of a later wait)
+HISTORY = ["", "", "(thread-sleep! 0.01)", "(thread-sleep! 0.001) (thread-sleep! 0.002)",
+           "(let ((mx (make-mutex))) (mutex-lock! mx) (mutex-unlock! mx (make-condition-variable) 0.01))",
+           "(thread-join! (make-thread (lambda () 1)) 0.01 'never-started)",
+           "(let ((mx (make-mutex))) (thread-join! (thread-start! (make-thread (lambda () (mutex-lock! mx) 1)))) (mutex-lock! mx 0.01))"]
+
+
 def f_timed(rng):
     """timeouts placed well before / well after the competing event (exact outcome) -- the simulated clock advances at most
     50us per tick, so a 10x margin in simulated time cannot be consumed by instruction execution."""
-    scen = rng.choice(["lock-timeout", "lock-ok", "join-timeout", "join-ok", "cv-timeout", "cv-ok", "sleep-order"])
+    scen = rng.choice(["lock-timeout", "lock-ok", "join-timeout", "join-ok", "cv-timeout", "cv-ok", "cv-ok", "sleep-order"])
+    hist = rng.choice(HISTORY)
     if scen == "lock-timeout":
         src = """
 (define m (make-mutex))
@@ -272,11 +282,11 @@ def f_timed(rng):
         src = """
 (define m (make-mutex))
 (mutex-lock! m)
-(define t (thread-start! (make-thread (lambda () (let ((r (mutex-lock! m 5))) (let ((own (eq? (mutex-state m) (current-thread)))) (if r (mutex-unlock! m)) (list r own)))))))
-(thread-sleep! 0.05)
+(define t (thread-start! (make-thread (lambda () %s (let ((r (mutex-lock! m 5))) (let ((own (eq? (mutex-state m) (current-thread)))) (if r (mutex-unlock! m)) (list r own)))))))
+(thread-sleep! 0.5)
 (mutex-unlock! m)
 (write (thread-join! t))
-"""
+""" % hist
         exp = "(#t #t)"
     elif scen == "join-timeout":
         src = """
@@ -287,9 +297,10 @@ def f_timed(rng):
         exp = "timed-outlate"
     elif scen == "join-ok":
         src = """
-(define t (thread-start! (make-thread (lambda () (thread-sleep! 0.05) 'early))))
+(define t (thread-start! (make-thread (lambda () (thread-sleep! 0.5) 'early))))
+%s
 (write (thread-join! t 5 'timed-out))
-"""
+""" % hist
         exp = "early"
     elif scen == "cv-timeout":
         src = """
@@ -302,11 +313,12 @@ def f_timed(rng):
     elif scen == "cv-ok":
         src = """
 (define m (make-mutex)) (define cv (make-condition-variable)) (define flag #f)
-(define t (thread-start! (make-thread (lambda () (thread-sleep! 0.05) (mutex-lock! m) (set! flag #t) (condition-variable-signal! cv) (mutex-unlock! m) 'signalled))))
+(define t (thread-start! (make-thread (lambda () (thread-sleep! 0.5) (mutex-lock! m) (set! flag #t) (condition-variable-%s! cv) (mutex-unlock! m) 'signalled))))
+%s
 (mutex-lock! m)
 (define r (let wait () (if flag 'seen (if (mutex-unlock! m cv 5) (begin (mutex-lock! m) (wait)) 'timeout))))
 (write r) (write (thread-join! t))
-"""
+""" % (rng.choice(["signal", "broadcast"]), hist)
         exp = "seensignalled"
     else:
         ds = rng.sample([0.01, 0.2, 0.5, 1.1, 2.3], 3)
